@@ -69,6 +69,9 @@ func gen(g *mon.Gen) {
 	for i := 0; i < g.Pick(4, 60); i++ {
 		g.Emit(&Case{Mask: 12, Seed: rng.Int63(), K: 0, Terminal: "limiter"})
 	}
+	for i := 0; i < g.Pick(6, 80); i++ {
+		g.Emit(&Case{Mask: i % 2, Seed: rng.Int63(), K: 0, Terminal: "drain"}) // odd: two overlapping Shutdown calls
+	}
 	for i := 0; i < g.Pick(6, 60); i++ {
 		// the context ends while an accept callback is running (masks with both the accept and the close callback)
 		g.Emit(&Case{Mask: 12 | i%4, Seed: rng.Int63(), K: 3 + rng.Intn(8), Terminal: "cancel", InAccept: 1 + i%3, Yield: i%2 == 0, HDelay: rng.Intn(3)})
@@ -428,6 +431,164 @@ func runLimiter(c *Case, r *mon.Rec, rng *rand.Rand) {
 	scancel()
 }
 
+// runDrain: Shutdown has to wait for a handler (blocked until the harness releases it). While it waits, a new client
+// dials; on odd masks a second Shutdown call (a signal handler and a deferred clean-up both shutting down) overlaps the
+// first. Oracles once the first Shutdown has returned nil: Serve has returned the server-closed error; the reply owed to
+// the blocked request was written before the return; the client that arrived during the wait was either refused or its
+// connection has been closed by the server - it is not served afterwards; neither call crashes or blocks for ever.
+func runDrain(c *Case, r *mon.Rec, rng *rand.Rand) {
+	dev := simdev.New(uint64(c.Seed), "srv")
+	release := make(chan struct{})
+	started := make(chan struct{}, 1)
+	devH := srvx.DevHandler(dev, nil)
+	h := srvx.HandlerFunc(func(ctx context.Context, req packet.Request) (packet.Response, error) {
+		if b := req.Bytes(); b[0] == 0 && b[1] == 7 {
+			started <- struct{}{}
+			<-release
+		}
+		return devH.Handle(ctx, req)
+	})
+	s := &server.Server{OnErrorFunc: func(error) {}, WriteTimeout: 2 * time.Second}
+	l := srvx.NewMemListener()
+	ctx, cancel := context.WithCancel(context.Background())
+	ret := make(chan error, 1)
+	go func() { ret <- s.Serve(ctx, l, h) }()
+	released := false
+	defer func() {
+		if !released {
+			close(release)
+		}
+		cancel()
+	}()
+	a := mon.Attrs{"terminal": c.Terminal, "overlapping_shutdowns": c.Mask&1 == 1}
+	r.Eval(1)
+	r.Cover("terminal", c.Terminal)
+	cliA, rcA, err := l.Dial(2 * time.Second)
+	if err != nil {
+		r.Inconclusive("drain: cannot connect: " + err.Error())
+		return
+	}
+	defer cliA.Close()
+	qA := specref.Req{FC: 3, Unit: 1, TID: 7, Addr: uint16(rng.Intn(60000)), Qty: uint16(1 + rng.Intn(20))}
+	refDev := simdev.New(uint64(c.Seed), "srv")
+	wantA := refDev.Handle(qA).Encode(specref.TCP)
+	_ = cliA.SetWriteDeadline(time.Now().Add(2 * time.Second))
+	if _, err := cliA.Write(qA.Encode(specref.TCP)); err != nil {
+		r.Inconclusive("drain: write: " + err.Error())
+		return
+	}
+	select {
+	case <-started:
+	case <-time.After(3 * time.Second):
+		r.Inconclusive("drain: handler did not start")
+		return
+	}
+	gotA := make(chan []byte, 1)
+	go func() {
+		b, _ := srvx.ReadN(cliA, len(wantA), 6*time.Second)
+		gotA <- b
+	}()
+	type shutRes struct {
+		err error
+		ret int64
+	}
+	shut := func(ch chan shutRes) {
+		sctx, sc := context.WithTimeout(context.Background(), 4*time.Second)
+		defer sc()
+		e := s.Shutdown(sctx)
+		ch <- shutRes{e, l.Clk.Tick()}
+	}
+	ch1, ch2 := make(chan shutRes, 1), make(chan shutRes, 1)
+	go shut(ch1)
+	if c.Mask&1 == 1 {
+		time.Sleep(time.Duration(rng.Intn(3000)) * time.Microsecond)
+		go shut(ch2)
+	}
+	time.Sleep(time.Duration(30+rng.Intn(40)) * time.Millisecond) // both calls are now waiting for the handler
+	qD := specref.Req{FC: 3, Unit: 9, TID: 99, Addr: 5, Qty: 2}
+	wantD := refDev.Handle(qD).Encode(specref.TCP)
+	cliD, rcD, errD := l.Dial(300 * time.Millisecond)
+	gotD := make(chan []byte, 1)
+	if errD == nil {
+		defer cliD.Close()
+		go func() {
+			_ = cliD.SetWriteDeadline(time.Now().Add(5 * time.Second))
+			if _, e := cliD.Write(qD.Encode(specref.TCP)); e != nil {
+				gotD <- nil
+				return
+			}
+			b, _ := srvx.ReadN(cliD, len(wantD), 3*time.Second)
+			gotD <- b
+		}()
+		r.Cover("drain", "a client was accepted while Shutdown was waiting")
+	} else {
+		r.Cover("drain", "a client dialling while Shutdown was waiting was refused")
+	}
+	time.Sleep(time.Duration(10+rng.Intn(30)) * time.Millisecond)
+	close(release)
+	released = true
+	var r1 shutRes
+	select {
+	case r1 = <-ch1:
+	case <-time.After(7 * time.Second):
+		r.Violate(c, "shutdown-does-not-return", mon.Attrs{"drain": true}, "drain: Shutdown did not return within 7 s after the blocked handler was released")
+		return
+	}
+	if c.Mask&1 == 1 {
+		select {
+		case r2 := <-ch2:
+			r.Cover("drain", fmt.Sprintf("second overlapping Shutdown returned %v", r2.err))
+		case <-time.After(7 * time.Second):
+			r.Violate(c, "shutdown-does-not-return", mon.Attrs{"drain": true, "second_call": true}, "drain: the second of two overlapping Shutdown calls did not return within 7 s")
+			return
+		}
+	}
+	replyA := <-gotA
+	r.Distinct(mon.Mix(0xd7a1, uint64(c.Seed)))
+	if r1.err != nil {
+		r.Cover("shutdown", "drain-error:"+r1.err.Error())
+		return
+	}
+	select {
+	case e := <-ret:
+		if !errors.Is(e, server.ErrServerClosed) {
+			r.Violate(c, "serve-wrong-error-after-shutdown", a, fmt.Sprintf("drain: Shutdown returned nil, Serve returned %v", e))
+		}
+	case <-time.After(2 * time.Second):
+		r.Violate(c, "serve-does-not-return", a, "drain: Shutdown returned nil, Serve had not returned 2 s later")
+		return
+	}
+	written := 0
+	for _, e := range rcA.EventsCopy() {
+		if e.Op == "write" && e.Seq < r1.ret {
+			written += e.N
+		}
+	}
+	r.Eval(2)
+	if written < len(wantA) {
+		r.Violate(c, "inflight-reply-after-shutdown-returned", a, fmt.Sprintf("drain: Shutdown returned nil when %d of the %d reply bytes owed to the blocked request had been written (client finally got %d bytes)", written, len(wantA), len(replyA)))
+	} else if !bytes.Equal(replyA, wantA) {
+		r.Violate(c, "inflight-reply-lost", a, fmt.Sprintf("drain: reply written (%d bytes) but the client received % x, want % x", written, replyA, wantA))
+	}
+	if errD == nil {
+		rep := <-gotD
+		closed := false
+		for t := time.Now(); time.Since(t) < 2*time.Second; time.Sleep(time.Millisecond) {
+			if rcD.ServerCloses() > 0 {
+				closed = true
+				break
+			}
+		}
+		if len(rep) == len(wantD) || !closed {
+			r.Violate(c, "connection-survives-shutdown", a, fmt.Sprintf("drain: a client connected while Shutdown was waiting for a handler; Shutdown returned nil and Serve returned, after which that connection was answered: %v (%d reply bytes), closed by the server: %v", len(rep) == len(wantD), len(rep), closed))
+		}
+	}
+	if kc, _, e := l.Dial(300 * time.Millisecond); e == nil {
+		kc.Close()
+		r.Violate(c, "accepts-after-shutdown", a, "drain: a new connection was accepted after Shutdown returned nil")
+	}
+}
+
 // runRestart: the same Server value serves twice. The first serve call ends by context cancellation while one request is
 // still in its handler; a second serve call (new listener) follows; then Shutdown. What the server knows about the
 // connection from the first serve call must survive the second one: Shutdown may return nil only after the reply owed to
@@ -608,6 +769,10 @@ func run(ci any, r *mon.Rec) {
 	}
 	if c.Terminal == "limiter" {
 		runLimiter(c, r, rng)
+		return
+	}
+	if c.Terminal == "drain" {
+		runDrain(c, r, rng)
 		return
 	}
 	sc := &scenario{c: c, r: r, l: srvx.NewMemListener(), hstart: map[uint16]int64{}, hend: map[uint16]int64{}, rejected: map[string]bool{}, inflight: make(chan struct{}, 64), hdone: make(chan struct{}, 64), inAccept: make(chan struct{}, 1)}
